@@ -1,1 +1,60 @@
-From Verif Require Import Gen.Fixed Gen.Fixed_proofs.
+(* C02 Fixed-point arithmetic follows the per-100000 decimal semantics.
+   Model (Gen/Fixed.v): `elab` - the integer expression the DSL builds for an
+   expression mixing integer and fixed-point operands (which side is scaled by
+   100000 or 100000^2, where the product is divided back), `to_dest` - the
+   conversion at the assignment; evaluated by C01's operand model.  Validated on
+   every run against the REAL generated code executed in the ISA model.
+   Meaning: rationals (QArith); `rep v fixed` is the number a representation
+   stands for, `drop fixed q` the representation of q dropped toward minus
+   infinity. *)
+From Verif Require Import Gen.Denote Gen.Denote_proofs Gen.Fixed Gen.Fixed_proofs.
+
+(* sums, differences, products of ANY operand values, any mix of integer and
+   fixed-point operands: the exact rational result in the result's representation *)
+Theorem C02_ring_ops : forall op A fa B fb, op = FAdd \/ op = FSub \/ op = FMul ->
+  op_value op A fa B fb = drop (op_fixed op fa fb) (qop op (rep A fa) (rep B fb)).
+Proof. exact ring_op_spec. Qed.
+Print Assumptions C02_ring_ops.
+
+(* true division (always fixed-point) and floor division (always integer) *)
+Theorem C02_divisions : forall op A fa B fb, op = FTrueDiv \/ op = FFloorDiv -> 0 < B ->
+  op_value op A fa B fb = drop (op_fixed op fa fb) (qop op (rep A fa) (rep B fb)).
+Proof. exact div_op_spec. Qed.
+Print Assumptions C02_divisions.
+
+Theorem C02_remainder : forall A fa B fb, 0 < B ->
+  op_value FMod A fa B fb = drop (op_fixed FMod fa fb) (qop FMod (rep A fa) (rep B fb)).
+Proof. exact mod_op_spec. Qed.
+
+(* the elaborated expression computes op_value of its operands' exact values,
+   at every node of every expression tree *)
+Theorem C02_elaboration : forall op ea fa eb fb,
+  exact (fst (elab_op op (ea, fa) (eb, fb))) = op_value op (exact ea) fa (exact eb) fb /\
+  snd (elab_op op (ea, fa) (eb, fb)) = op_fixed op fa fb.
+Proof. exact elab_op_exact. Qed.
+
+(* assignment: integer <-> fixed-point conversion drops the fraction *)
+Theorem C02_assignment : forall dest_fixed e f,
+  exact (to_dest dest_fixed (e, f)) = drop dest_fixed (rep (exact e) f).
+Proof. exact to_dest_spec. Qed.
+Print Assumptions C02_assignment.
+
+(* and the generated code stores that exact value (C01's theorem, instantiated) *)
+Theorem C02_stored : forall fe dest_fixed n, In n [1; 2; 4; 8]%nat ->
+  ok (to_dest dest_fixed (elab fe)) (Some (Nat.eqb n 8)) ->
+  stored (to_dest dest_fixed (elab fe)) n = exact (to_dest dest_fixed (elab fe)) mod 256 ^ Z.of_nat n.
+Proof. intros. apply stored_exact; assumption. Qed.
+Print Assumptions C02_stored.
+
+(* `ok` excludes negative operands of the (unsigned) divisions - recorded finding: *)
+Theorem C02_refuted_negative : exists e,
+  stored (to_dest false (e, true)) 8 <> exact (to_dest false (e, true)) mod 256 ^ 8 /\
+  e = EVar (18446744073709551616 - 6500000) 8 true.
+Proof. eexists. split; [|reflexivity]. vm_compute. discriminate. Qed.
+
+(* non-vacuity: 1.0 + 0.29 (a decimal without exact binary representation) and 2.5 * 1.5 *)
+Example C02_nonvacuous :
+  stored (to_dest true (elab (FOp FAdd (FFix (EVar 100000 8 true)) (FConstF 29000)))) 8 = 129000 /\
+  stored (to_dest true (elab (FOp FMul (FFix (EVar 250000 8 true)) (FConstF 150000)))) 8 = 375000 /\
+  stored (to_dest false (elab (FOp FTrueDiv (FInt (EVar 7 4 false)) (FConstF 200000)))) 8 = 3.
+Proof. vm_compute. auto. Qed.
